@@ -137,20 +137,36 @@ fn k_arch_nonspace_fallback() {
     kani::cover!(ws);
 }
 
-/// simd_str2int: SSE version == scalar fallback for every 16-byte input and every need in 1..=16
-/// under the callers' precondition (first byte is a digit; see parse_number_fraction).
-#[kani::proof]
-#[kani::stub(core::arch::x86_64::_mm_maddubs_epi16, intrinsics::mm_maddubs_epi16)]
-#[kani::stub(core::arch::x86_64::_mm_madd_epi16, intrinsics::mm_madd_epi16)]
-#[kani::stub(core::arch::x86_64::_mm_packus_epi32, intrinsics::mm_packus_epi32)]
-fn k_num_str2int() {
+/// simd_str2int: SSE version == scalar fallback for every 16-byte input, one harness per value
+/// of `need` in 1..=16, under the callers' precondition (first byte is a digit; see
+/// parse_number_fraction).
+fn str2int_body(need: usize) {
     let d: [u8; 16] = kani::any();
-    let need: usize = kani::any();
-    kani::assume(need >= 1 && need <= 16);
     kani::assume(d[0] >= b'0' && d[0] <= b'9');
     let a = unsafe { num_native::simd_str2int(&d, need) };
     let b = unsafe { num_fallback::simd_str2int(&d, need) };
     assert_eq!(a, b);
-    kani::cover!(a.1 == 16);
-    kani::cover!(a.1 == 7 && need == 9);
+    kani::cover!(a.1 == need);
+    kani::cover!(a.1 < need || need == 1);
 }
+
+macro_rules! str2int_harness {
+    ($($name:ident: $need:expr),*) => {
+        $(
+            #[kani::proof]
+            #[kani::unwind(18)]
+            #[kani::stub(core::arch::x86_64::_mm_maddubs_epi16, intrinsics::mm_maddubs_epi16)]
+            #[kani::stub(core::arch::x86_64::_mm_madd_epi16, intrinsics::mm_madd_epi16)]
+            #[kani::stub(core::arch::x86_64::_mm_packus_epi32, intrinsics::mm_packus_epi32)]
+            #[kani::stub(core::arch::x86_64::_mm_sub_epi8, intrinsics::mm_sub_epi8)]
+            fn $name() {
+                str2int_body($need);
+            }
+        )*
+    };
+}
+
+str2int_harness!(k_num_str2int_1: 1, k_num_str2int_2: 2, k_num_str2int_3: 3, k_num_str2int_4: 4, k_num_str2int_5: 5,
+    k_num_str2int_6: 6, k_num_str2int_7: 7, k_num_str2int_8: 8, k_num_str2int_9: 9, k_num_str2int_10: 10,
+    k_num_str2int_11: 11, k_num_str2int_12: 12, k_num_str2int_13: 13, k_num_str2int_14: 14, k_num_str2int_15: 15,
+    k_num_str2int_16: 16);
